@@ -19,6 +19,7 @@ class Acc:
 
 BASE = ("base",)
 SCALAR = ("scalar",)
+LEADBITS = ("bits", "lead1")
 
 
 class HornerDomain:
@@ -39,11 +40,17 @@ class HornerDomain:
         cur = fr.env.get(l, TOP)
         if isinstance(cur, Acc):
             return Acc(1, 0)
-        if cur in (("bits",), BASE, SCALAR):
+        if cur in (("bits",), LEADBITS, BASE, SCALAR):
             return cur           # the iterator stays an (opaque) iterator over the scalar's bits; operands are not reassigned
         return TOP
 
     def at_head(self, ex, fr, bb, written):
+        if not fr.env.get("__looping") and fr.env.get("__lead") == 1:
+            # the leading bit — known to be set — was taken off the iterator before the loop: an accumulator that starts as the
+            # base holds the multiple 1 = 2·0 + 1, what the first pass of the plain ladder would have produced
+            for l in written:
+                if fr.env.get(l) == BASE:
+                    fr.env[l] = Acc(0, 1)
         accs = [(l, fr.env.get(l)) for l in written if isinstance(fr.env.get(l), Acc)]
         if not accs:
             return
@@ -56,7 +63,8 @@ class HornerDomain:
         else:
             fr.env["__acc_locals"] = tuple(l for l, _ in accs)
             for l, v in accs:
-                self.inits.append((v.a, v.b))
+                # the multiple 1 is a legitimate start only when the (set) leading bit was taken off the iterator before the loop
+                self.inits.append((v.a, v.b) if (v.a, v.b) != (0, 1) or fr.env.get("__lead") == 1 else ("1 without the leading bit consumed", v.a, v.b))
         fr.env["__looping"] = True
         fr.env["__looped"] = True
         fr.env.pop("__bit", None)
@@ -67,7 +75,11 @@ class HornerDomain:
         if what == "bit":
             fr.env["__bit"] = val
         elif what == "variant?":
-            pass
+            if cond[2][1] == ("lead",):
+                # the iterator without leading zeros is empty exactly when the scalar is zero
+                pc = list(fr.env.get("__pc", ()))
+                pc.append(("iszero", "scalar", cond[2][2][truth] == "None"))
+                fr.env["__pc"] = tuple(pc)
         else:
             pc = list(fr.env.get("__pc", ()))
             pc.append((what, cond[2], val))
@@ -113,9 +125,27 @@ class HornerDomain:
         if a and a[0] == SCALAR and len(a) == 1:
             # any other unary method of the scalar that yields an iterator / view of its bits
             out = (self.F.bodies.get(fk.d).rec.get("output") if self.F.bodies.get(fk.d) else "") or ""
+            if n == "bits_without_leading_zeros":
+                return LEADBITS          # R-BITS: the bit iterator with its leading zeros skipped — the first bit it yields is set
             if "Iter" in out or "iter" in n or "bits" in n:
                 return ("bits",)
             return NotImplemented
+        if a and a[0] == ("bits",) and n == "skip_while" and len(a) == 2:
+            cbd = ex.F.bodies.get(a[1].name[len("closure:"):]) if isinstance(a[1], Adt) and str(a[1].name).startswith("closure:") else None
+            if cbd is not None and not list(cbd.calls()) and any(st["k"] == "assign" and st["rv"]["k"] == "unop" and st["rv"]["op"] == "Not" for blk in cbd.blocks for st in blk["stmts"]):
+                return LEADBITS          # skip_while(|b| !b)
+            return ("bits",)
+        if a and a[0] == LEADBITS and n in ("into_iter", "iter", "by_ref", "peekable", "fuse"):
+            return LEADBITS
+        if a and a[0] == LEADBITS and n == "next" and not (fr is not None and fr.env.get("__looping")):
+            # taken off before any loop: None ⇔ the scalar is zero, otherwise the (set) leading bit
+            store_through(ex, args[0], ("bits",))
+            fr.env["__lead"] = fr.env.get("__lead", 0) + 1
+            return Adt("core::option::Option", ("?", ("lead",), {0: "None", 1: "Some"}), [True])
+        if a and isinstance(a[0], Adt) and isinstance(a[0].variant, tuple) and a[0].variant[:2] == ("?", ("lead",)) and n in ("is_none", "is_some") and len(a) == 1:
+            return ("cond", "iszero", "scalar", n == "is_some")
+        if a and a[0] == LEADBITS:
+            a = [("bits",)] + list(a[1:])
         if a and a[0] == ("bits",) and n in ("into_iter", "iter", "by_ref", "rev", "skip_while", "peekable", "fuse"):
             return ("bits",)
         if a and a[0] == ("bits",) and n == "next":
@@ -177,7 +207,7 @@ def rule_ladder(prop, repo, which):
             rs = []
             why.append(str(e))
         why += sorted(set(dom.errors))[:3]
-        if not dom.inits or any(i != (0, 0) for i in dom.inits):
+        if not dom.inits or any(i not in ((0, 0), (0, 1)) for i in dom.inits):
             why.append("accumulator does not start at %s() (enters the loop as %s)" % (neutral, dom.inits[:2]))
         st = set(dom.steps)
         if st != {(2, 0, False), (2, 1, True)}:
